@@ -41,6 +41,15 @@ func genWriterResps(r *rng, faults int) []resp {
 	return rs
 }
 
+// capMatch keeps the decoded stream of a script small (default 8 MiB geometry:
+// matches proportional to the offset would double the stream with every op).
+func capMatch(r *rng, m, avail int) int {
+	if avail+m > 3000 && m > 48 {
+		return r.rangeIn(0, 48)
+	}
+	return m
+}
+
 var wildU32 = []int{0, 1, 2, 3, 255, 256, 65535, 1 << 20, 1<<31 - 1, 1 << 31, 1<<32 - 2, 1<<32 - 1}
 
 // genValidBlock builds a block that is well-formed for window ws when avail
@@ -59,6 +68,7 @@ func genValidBlock(r *rng, avail, ws, room int, mal int) ([]lz.Seq, []byte) {
 		if lim > 0 {
 			o = r.pick(1, lim, r.rangeIn(1, lim))
 			m = r.pick(0, 1, 2, o, o+1, 2*o+1, 3*o, r.rangeIn(0, max(1, room)), r.rangeIn(0, 2*max(1, room)))
+			m = capMatch(r, m, avail)
 		}
 		seqs = append(seqs, lz.Seq{LitLen: uint32(ll), MatchLen: uint32(m), Offset: uint32(o)})
 		avail += ll + m
@@ -160,6 +170,7 @@ func genDScript(r *rng, pf dProfile, id string, cnt counters, emit func(line, ou
 			if lim > 0 {
 				o = r.pick(1, lim, r.rangeIn(1, lim))
 				m = r.pick(0, 1, o, o+1, 2*o+1, 5*o+2, sz())
+				m = capMatch(r, m, len(e.written))
 			}
 			if r.chance(pf.malformed) {
 				o = r.pick(0, lim+1, e.ws+1, wildU32[r.intn(len(wildU32))])
